@@ -46,11 +46,12 @@ package hash
 //@ func (*Hash).MarshalString
 //@   nilable-receiver
 //@   ensures h == nil ==> ret == ""
-//@   ensures h != nil ==> ret == b58enc(pbHash(h.HashType, h.Hash))
+// (for a hash without unknown protobuf fields: the generated encoder appends any that a decoder kept)
+//@   ensures h != nil && len(h.unknownFields) == 0 ==> ret == b58enc(pbHash(h.HashType, h.Hash))
 
 //@ func (*Hash).MarshalDigest
 //@   nilable-receiver
-//@   ensures h != nil ==> content(ret) == pbHash(h.HashType, h.Hash)
+//@   ensures h != nil && len(h.unknownFields) == 0 ==> content(ret) == pbHash(h.HashType, h.Hash)
 
 //@ func (*Hash).ParseFromB58
 //@   modifies h
